@@ -29,7 +29,9 @@ EXPLANATION = (
     "amplitudes); exploit_perm_sym: re-expanding the returned parts, sum over parts and their terms t of "
     "(t + sum_(P,f) f P t), gives the value of the input in every world (Klein four group where two permutations reach "
     "the same term, the four terms ia/ja/ib/jb, one deviating prefactor, three-cycles, self-(anti)symmetric and "
-    "annihilated terms, unique terms, terms with denominators, numbers) and one term is kept per orbit. R10c (declared "
+    "annihilated terms, unique terms, terms with denominators, numbers, and unsimplified input in which the base term, "
+    "its partner or both occur twice or three times up to the name of a contracted index - every input term counted "
+    "exactly once) and one term is kept per orbit and multiplicity. R10c (declared "
     "symmetry): every (P, f) recorded by exploit_perm_sym is an item of the symmetry of its single probe tensor; that "
     "tensor has the requested class, the requested upper/lower split with the requested spins and the bra-ket "
     "symmetry (0 without explicit targets); inconsistent requests (bra-ket symmetry without separator, spin "
@@ -127,21 +129,27 @@ def lin_of(coeff, mono):
 class World:
     """Terms t0..tn-1 = coeff * monomial; `invalid`: (i, perms) that annihilate the term."""
 
-    def __init__(self, name, terms, groups=None, denom=False, invalid=()):
+    def __init__(self, name, terms, groups=None, denom=False, invalid=(), rename=None):
         self.name, self.terms, self.denom = name, terms, denom
         self.groups = groups or ["g"] * len(terms)
         self.invalid = set(invalid)
         self.alias = {}     # monomials that are equal in value (renamed contracted indices) but counted as separate terms
+        self.rename = rename or {}   # names of contracted indices that denote the same summation: {'l': 'k'}
+
+    def _val(self, c, m):
+        if self.rename:
+            m = tuple((n, k, tuple(self.rename.get(x, x) for x in up), tuple(self.rename.get(x, x) for x in lo)) for n, k, up, lo in m)
+        return lin_of(c, m)
 
     def term(self, i):
-        return lin_of(*self.terms[i])
+        return self._val(*self.terms[i])
 
     def permuted(self, i, perms):
         perms = tuple(tuple(p) for p in perms)
         if (i, perms) in self.invalid:
             return {}
         c, m = self.terms[i]
-        return lin_of(c, mono_permute(m, perms))
+        return self._val(c, mono_permute(m, perms))
 
     def total(self):
         out = {}
@@ -529,7 +537,41 @@ def _exploit_worlds():
                             (1, (X("a", "i"), Z("b", "j")))]), {("ij",): 1, ("ab",): 1, ("ij", "ab"): 1}, False, "R10b", 3,
          "self-symmetric terms in one class"),
         (World("unrelated", [(1, (X("a", "i"), Z("b", "j"))), (1, (Z("a", "i"), Z("b", "j")))]), ANTI4, True, "R10b", 2, "no relation"),
+    ] + _duplicate_worlds()
+
+
+def _duplicate_worlds():
+    """Unsimplified input: terms that are equal up to the name of a contracted index (k / l denote the same summation)."""
+    fY = lambda p, q, c: (F("f", p, c, "plain"), F("Y", q, c, "plain"))   # noqa: E731   f^p_c Y^q_c
+    A, B, C = (lambda l: F("A", "", l, "plain")), (lambda l: F("B", "", l, "plain")), (lambda l: F("C", "", l, "plain"))
+    D = lambda l, c: F("D", c, l, "plain")   # noqa: E731
+    rn = {"l": "k"}
+    P, S_ = {("ij",): -1}, {("ij",): +1}
+    cyc = {("ij",): 1, ("ik",): 1, ("jk",): 1, ("ij", "ik"): 1, ("ij", "jk"): 1}
+    out = []
+    for denom in (False, True):
+        d = " (with denominators)" if denom else ""
+        out += [
+            (World("duplicate partner" + d, [(1, fY("j", "i", "k")), (-1, fY("i", "j", "k")), (-1, fY("i", "j", "l"))], rename=rn, denom=denom),
+             P, True, "R10b", 2, "X - P X - P X' with X' = X up to the contracted name"),
+            (World("duplicate base" + d, [(1, fY("j", "i", "k")), (1, fY("j", "i", "l")), (-1, fY("i", "j", "k"))], rename=rn, denom=denom),
+             P, True, "R10b", 2, "X + X' - P X"),
+            (World("duplicate base and partner" + d, [(1, fY("j", "i", "k")), (-1, fY("i", "j", "k")), (1, fY("j", "i", "l")),
+                                                     (-1, fY("i", "j", "l"))], rename=rn, denom=denom),
+             P, True, "R10b", 2, "X - P X + X' - P X'"),
+            (World("partner first" + d, [(-1, fY("i", "j", "l")), (1, fY("j", "i", "k")), (-1, fY("i", "j", "k"))], rename=rn, denom=denom),
+             P, True, "R10b", 2, "- P X' + X - P X"),
+        ]
+    out += [
+        (World("duplicate partner, symmetric", [(1, fY("j", "i", "k")), (1, fY("i", "j", "k")), (1, fY("i", "j", "l"))], rename=rn),
+         S_, False, "R10b", 2, "X + P X + P X' under a symmetric result tensor"),
+        (World("triplicate partner", [(1, fY("j", "i", "k")), (-1, fY("i", "j", "k")), (-1, fY("i", "j", "l")), (-1, fY("i", "j", "m"))],
+               rename={"l": "k", "m": "k"}), P, True, "R10b", 3, "X - P X - P X' - P X''"),
+        (World("duplicate in a three-cycle", [(1, (A("i"), B("j"), C("k"), D("", "c"))), (1, (A("k"), B("i"), C("j"), D("", "c"))),
+                                             (1, (A("j"), B("k"), C("i"), D("", "c"))), (1, (A("j"), B("k"), C("i"), D("", "d")))],
+               rename={"d": "c"}), cyc, False, "R10b", 2, "three cyclic images, one of them twice"),
     ]
+    return out
 
 
 class _ExploitScen:
@@ -617,7 +659,7 @@ def r10_exploit(ctx):
     for w, symm, anti, rule, n_kept, note in _exploit_worlds():
         if not ctx.want(rule):
             continue
-        scen = _ExploitScen(w, symm, target="ijk" if w.name == "cycle" else "ijab")
+        scen = _ExploitScen(w, symm, target="ijk" if "cycle" in w.name else "ijab")
         what = f"exploit_perm_sym[{w.name}: {note}]"
         outs = _run_exploit(ctx, scen, lambda: dict(expr=scen.expr(), antisymmetric_result_tensor=anti), what)
         o = one_return(ctx, rule, fn, outs, what, key=f"{w.name} shape")
